@@ -501,6 +501,25 @@ func (fc *FuncCtx) execSlice(fr *Frame, st *State, t *ssa.Slice) {
 			for i := int64(0); i < n; i++ {
 				l = v.listCons(abs, l, c.Select(arr, c.Int(i)))
 			}
+			if _, named := t.Type().(*types.Named); named && (abs.Sort.Name == "Coins" || abs.ListCons == "coins_cons") {
+				// a composite literal sdk.Coins{...} builds the LIST directly, without the sanitising of sdk.NewCoins: the map model
+				// of Coins assumes valid lists (positive amounts, distinct denominations), so validity is an obligation here - a
+				// zero-amount entry makes Empty() / Len() / IsValid() of the real list differ from the model's
+				for i := int64(0); i < n; i++ {
+					e := c.Select(arr, c.Int(i))
+					amt, ok1 := c.FieldByName(e, "Amount")
+					den, ok2 := c.FieldByName(e, "Denom")
+					if !ok1 || !ok2 || amt.Sort.Kind != KInt {
+						continue
+					}
+					fc.safety(st, "coinslit", c.Cmp(">", amt, c.Int(0)), t.Pos(), "sdk.Coins literal: every amount is positive (the list is not sanitised)")
+					for j := int64(0); j < i; j++ {
+						if dj, ok := c.FieldByName(c.Select(arr, c.Int(j)), "Denom"); ok {
+							fc.safety(st, "coinslit", c.Not(c.Eq(den, dj)), t.Pos(), "sdk.Coins literal: denominations are distinct")
+						}
+					}
+				}
+			}
 			fr.vals[t] = Val{T: l, GoT: t.Type()}
 			return
 		}
